@@ -283,7 +283,152 @@ func propC16(c *ctx) error {
 	if err := c16LateLoad(c, r); err != nil {
 		return err
 	}
-	return c16Twins(c, r)
+	if err := c16Twins(c, r); err != nil {
+		return err
+	}
+	return c16Nested(c, r)
+}
+
+// c16Nested: executions that OVERLAP without racing. A data function called in the middle of an attribute value, a text
+// value, a loop body, a with binding or a condition renders a template of the same manager (the same object, another object
+// of the same name, or another file) with other data — in the calling goroutine or in another goroutine the caller waits
+// for — and returns that output. Every execution involved must produce what it produces when nothing else is running:
+// the inner output equals the inner execution alone, the outer output equals an execution in which the function returns
+// that same string as a constant. ("output depends only on the loaded templates and the data passed to that call")
+func c16Nested(c *ctx, r *rng) error {
+	res := c.res
+	files := [][2]string{
+		{"page", `<p :title="Hello, ${name}! ${sub()} and ${n} more" :text="A ${name} ${sub()} ${n}" data-k="${name}">o</p>` +
+			`<ul><li :range="i, x : xs" :class="c${i} ${sub()} ${x}" :text="${x}-${sub()}-${i}">o</li> </ul>` +
+			`<div :with="w := ${name + sub()}; v := ${n}"><b :if="${sub() != 'never'}" :text="${w}${sub()}${v}">o</b><i :else="">e</i></div>` +
+			`<div :insert="frag">x</div><span :replace="frag">y</span>`},
+		{"other", `<q :title="${n}:${name}:${sub()}" :text="${sub()}${name}">o</q><div :insert="frag">z</div>`},
+		{"lib", `<em :define="frag" :data-a="f ${name} ${sub()} ${n}" :text="${n}${sub()}${name}">f</em>`},
+	}
+	load := func() (types.TemplateManager, error) {
+		m := html.NewTplManager()
+		for _, f := range files {
+			if err := m.Add(f[0], strings.NewReader(f[1])); err != nil {
+				return nil, err
+			}
+		}
+		return m, nil
+	}
+	run := func(t types.Template, data any) (out string, errS string) {
+		var sb strings.Builder
+		defer func() {
+			if x := recover(); x != nil {
+				errS = fmt.Sprint("panic: ", x)
+			}
+		}()
+		if err := t.Execute(&sb, data); err != nil {
+			errS = "err"
+		}
+		return sb.String(), errS
+	}
+	mkData := func(name string, n int, xs []any, sub func() string) map[string]any {
+		return map[string]any{"name": name, "n": n, "xs": xs, "sub": sub}
+	}
+	n := c.n(60, 2000)
+	for i := 0; i < n; i++ {
+		m, err := load()
+		if err != nil {
+			res.SelfTest = append(res.SelfTest, "C16 nested template does not load: "+err.Error())
+			return nil
+		}
+		outerName := []string{"page", "other"}[r.n(2)]
+		innerName := []string{"page", "other", "page"}[r.n(3)]
+		shared, _ := m.GetTemplate(outerName)
+		depth := 1 + r.n(3)
+		otherGoroutine := r.p(50)
+		sameObject := r.p(60)
+		failInner := r.p(12)
+		// valuations per level; level 0 is the outer execution
+		type lvl struct {
+			name string
+			n    int
+			xs   []any
+		}
+		lv := make([]lvl, depth+1)
+		for k := range lv {
+			lv[k] = lvl{fmt.Sprintf("N%d<%d", k, r.n(9)), r.n(50) + 100*k, nil}
+			for j, cnt := 0, r.n(4); j < cnt; j++ {
+				lv[k].xs = append(lv[k].xs, fmt.Sprintf("x%d%d", k, j))
+			}
+		}
+		tplAt := func(k int) string {
+			if k == 0 {
+				return outerName
+			}
+			return innerName
+		}
+		// alone[k]: output of level k when everything below it is a constant (computed bottom-up on FRESH managers)
+		alone := make([]string, depth+2)
+		aloneErr := make([]string, depth+2)
+		alone[depth+1] = "LEAF"
+		for k := depth; k >= 0; k-- {
+			fm, _ := load()
+			ft, _ := fm.GetTemplate(tplAt(k))
+			below, belowErr := alone[k+1], aloneErr[k+1]
+			var data any = mkData(lv[k].name, lv[k].n, lv[k].xs, func() string {
+				if belowErr != "" {
+					return "ERR"
+				}
+				return below
+			})
+			if k == depth && failInner {
+				data = map[string]any{"name": lv[k].name} // n, xs, sub missing: the innermost execution fails half-way
+			}
+			alone[k], aloneErr[k] = run(ft, data)
+		}
+		// the overlapped run on ONE manager
+		got := make([]string, depth+1)
+		gotErr := make([]string, depth+1)
+		var exec func(k int) string
+		exec = func(k int) string {
+			var t types.Template
+			if k == 0 || (sameObject && tplAt(k) == outerName) {
+				t = shared
+			} else {
+				t, _ = m.GetTemplate(tplAt(k))
+			}
+			var data any = mkData(lv[k].name, lv[k].n, lv[k].xs, func() string {
+				if k == depth {
+					return "LEAF"
+				}
+				if otherGoroutine {
+					ch := make(chan string)
+					go func() { ch <- exec(k + 1) }()
+					return <-ch
+				}
+				return exec(k + 1)
+			})
+			if k == depth && failInner {
+				data = map[string]any{"name": lv[k].name}
+			}
+			// the same function is called several times in one execution: keep the LAST result per level
+			o, e := run(t, data)
+			got[k], gotErr[k] = o, e
+			if e != "" {
+				return "ERR"
+			}
+			return o
+		}
+		exec(0)
+		res.S3Checked++
+		res.count(fmt.Sprintf("nested_depth_%d", depth))
+		res.count("nested_outer_" + orOK(aloneErr[0]))
+		cs := J{"sub": "nested", "outer": outerName, "inner": innerName, "depth": depth, "other_goroutine": otherGoroutine, "same_object": sameObject, "fail_inner": failInner, "files": files}
+		res.eval(jstr(cs)+fmt.Sprint(lv), true, cs)
+		for k := 0; k <= depth; k++ {
+			if got[k] != alone[k] || gotErr[k] != aloneErr[k] {
+				res.violate(cs, J{"level": k, "alone": trunc(alone[k], 400), "err": aloneErr[k]}, J{"overlapped": trunc(got[k], 400), "err": gotErr[k]},
+					fmt.Sprintf("execution at nesting level %d overlapping with other executions of the same manager differs from the same execution alone", k))
+				break
+			}
+		}
+	}
+	return nil
 }
 
 // c16LateLoad: a template object obtained and executed BEFORE further files are added to its manager sees, on its next
